@@ -50,19 +50,23 @@ impl<R: BufRead> Iterator for PacketParser<R> {
         };
 
         debug!("found header: {header:?}");
-        let res = PacketBodyReader::new(header, &mut self.reader)
-            .map_err(Error::from)
-            .and_then(|mut body| {
-                match Packet::from_reader(header, &mut body) {
-                    Ok(packet) => Ok(packet),
-                    Err(Error::PacketParsing { source }) if source.is_incomplete() => {
-                        debug!("incomplete packet for: {source:?}");
-                        // not bailing, we are just skipping incomplete bodies
-                        Err(Error::PacketIncomplete { source })
-                    }
-                    Err(err) => Err(err),
-                }
-            });
+        let mut body = match PacketBodyReader::new(header, &mut self.reader) {
+            Ok(body) => body,
+            Err(err) => {
+                // the framing of this packet is illegal, so it is unknown where the next one starts
+                self.is_done = true;
+                return Some(Err(err.into()));
+            }
+        };
+        let res = match Packet::from_reader(header, &mut body) {
+            Ok(packet) => Ok(packet),
+            Err(Error::PacketParsing { source }) if source.is_incomplete() => {
+                debug!("incomplete packet for: {source:?}");
+                // not bailing, we are just skipping incomplete bodies
+                Err(Error::PacketIncomplete { source })
+            }
+            Err(err) => Err(err),
+        };
         Some(res)
     }
 }
@@ -86,8 +90,14 @@ impl<R: BufRead> PacketParser<R> {
         };
 
         debug!("found header: {header:?}");
-        let body = PacketBodyReader::new(header, &mut self.reader).map_err(Into::into);
-        Some(body)
+        match PacketBodyReader::new(header, &mut self.reader) {
+            Ok(body) => Some(Ok(body)),
+            Err(err) => {
+                // the framing of this packet is illegal, so it is unknown where the next one starts
+                self.is_done = true;
+                Some(Err(err.into()))
+            }
+        }
     }
 
     pub fn next_owned(mut self) -> Option<Result<PacketBodyReader<R>>> {
